@@ -92,8 +92,12 @@ def _thunk(s):
 _BUILDERS = {}
 
 
-def builder(spec):
-    """Validated thunk: its result reads back (vf.spec.to_spec) exactly like build(spec)'s."""
+def builder(spec, shared=False):
+    """Validated thunk: its result reads back (vf.spec.to_spec) exactly like build(spec)'s.
+    shared=True: vf.spec.build_shared (equal sub-specs become ONE object), fresh on every call."""
+    if shared:
+        from vf.spec import build_shared
+        return lambda: build_shared(spec)
     b = _BUILDERS.get(spec)
     if b is None:
         from vf.spec import to_spec
@@ -192,7 +196,7 @@ def produce(tier, cfg, outdir, sel="all"):
             def make(e=e):
                 return make_compiled(e["prod"], e["vars"])
         else:
-            make = builder(e["prod"])
+            make = builder(e["prod"], e.get("prod_shared", False))
         groups = {}
         for proto in P.protocols_for(e, tier):
             g = groups[proto] = {}
@@ -453,7 +457,7 @@ class Consumer:
         compiled = e["family"] == "compiled"
         reference = compiled_reference(e) if compiled else None
         spec = e["cons"]
-        make = None if compiled else builder(spec)
+        make = None if compiled else builder(spec, e.get("cons_shared", False))
         for proto, groups in rec["pickles"].items():
             for data, phists in groups:
                 counters["pickles_distinct"] += 1
@@ -472,7 +476,7 @@ class Consumer:
             return fails
         # ---- persistent digests ---------------------------------------------------------------
         try:
-            local = build(spec)
+            local = make()
             dl = digests(local)
             d2 = digests(local)                 # same object again (digest cache filled)
             try:
@@ -480,7 +484,7 @@ class Consumer:
                 d2h = digests(local)            # ... and after hashing
             except TypeError:
                 d2h = d2                        # unhashable: reported by the histories
-            d3 = digests(build(spec))           # fresh clone
+            d3 = digests(make())                # fresh clone
         except RecursionError:
             raise
         except Exception as ex:  # noqa: BLE001
